@@ -2,6 +2,7 @@ package padding
 
 import (
 	"crypto/cipher"
+	"errors"
 	"io"
 )
 
@@ -14,12 +15,17 @@ func P7BlockDecrypt(decrypter cipher.BlockMode, in io.Reader, out io.Writer) err
 	bufOut := make([]byte, 1024)
 	p7Out := NewPKCS7PaddingWriter(out, decrypter.BlockSize())
 	for {
-		n, err := in.Read(bufIn)
-		if err != nil && err != io.EOF {
+		// fill the buffer: a single Read may return any number of bytes, but
+		// CryptBlocks needs whole blocks
+		n, err := io.ReadFull(in, bufIn)
+		if err != nil && err != io.EOF && err != io.ErrUnexpectedEOF {
 			return err
 		}
 		if n == 0 {
 			break
+		}
+		if n%decrypter.BlockSize() != 0 {
+			return errors.New("padding: ciphertext is not a multiple of the block size")
 		}
 		decrypter.CryptBlocks(bufOut, bufIn[:n])
 		_, err = p7Out.Write(bufOut[:n])
@@ -39,12 +45,18 @@ func P7BlockEnc(encrypter cipher.BlockMode, in io.Reader, out io.Writer) error {
 	bufOut := make([]byte, 1024)
 	p7In := NewPKCS7PaddingReader(in, encrypter.BlockSize())
 	for {
-		n, err := p7In.Read(bufIn)
-		if err != nil && err != io.EOF {
+		// fill the buffer: a single Read may return any number of bytes, but
+		// CryptBlocks needs whole blocks (the padded stream ends on a block
+		// boundary)
+		n, err := io.ReadFull(p7In, bufIn)
+		if err != nil && err != io.EOF && err != io.ErrUnexpectedEOF {
 			return err
 		}
 		if n == 0 {
 			break
+		}
+		if n%encrypter.BlockSize() != 0 {
+			return errors.New("padding: block size does not divide the buffer size")
 		}
 		encrypter.CryptBlocks(bufOut, bufIn[:n])
 		_, err = out.Write(bufOut[:n])
